@@ -4,6 +4,7 @@ Template directives (each on its own line, introduced by `//@@`):
 
   //@@ fn file=<path> [impl="impl X"] name=<fn> [ret=<ident>] [as=<new fn name>] [vis=keep|none]
   //@@ slice file=<path> [impl="impl X"] name=<fn> (block=/re/ | start=/re/ (end=/re/ | endblock=/re/))
+        after=1 / before=1: the range starts after the start match / ends before the end match;
         block: the inside of the {..} that follows the match; start..end: whole lines from the start match to
         the end match; endblock: ... to the end of the {..} block that follows the end match
   //@@ sig <verus signature line(s) for a slice>          (slice only; may repeat)
@@ -372,6 +373,8 @@ class Gen:
                 if len(ms) != 1 and not (kv.get("first") and len(ms) > 1):
                     raise ExtractError("%s: start anchor /%s/ matched %d times" % (where, ps.pattern, len(ms)))
                 a = mb.rfind("\n", 0, ms[0].start()) + 1
+                if kv.get("after"):
+                    a = ms[0].end()                      # the range starts right after the start anchor
                 me = [m for m in pe.finditer(mb) if m.start() >= ms[0].start()]
                 if kv.get("end") == "$":
                     me = [re.compile(r"\Z").search(mb)]       # to the end of the function body
@@ -380,6 +383,8 @@ class Gen:
                 e = me[0]
                 if kv.get("end") == "$":
                     b = len(mb)
+                elif kv.get("before"):
+                    b = e.start()                         # the range ends right before the end anchor
                 elif "endblock" in kv:
                     # the range ends with the brace-matched block that follows the end anchor
                     k = mb.find("{", e.end() - 1 if mb[e.end() - 1] == "{" else e.end())
